@@ -865,6 +865,33 @@ verdict_t run_and_check(const ucase_t& c, const std::vector<std::vector<double>>
                 applied.description += cat("solver::tolerance=(", std::get<0>(tol), ",", std::get<1>(tol), ") ");
             }
         }
+        // the line-search OBJECT of a line-search solver (40 % of those cases, derived from draws the case already carries): another
+        // registered method, half of them with a small non-default iteration limit
+        if (type == nano::solver_type::line_search)
+        {
+            const int pick = static_cast<int>(std::floor(std::clamp(c.tol_u2, 0.0, 1.0) * 10.0));
+            if (pick >= 6)
+            {
+                static const char* ids[] = {"backtrack", "cgdescent", "fletcher", "lemarechal", "morethuente"};
+                const auto         id    = ids[static_cast<int>(std::floor(std::clamp(c.tol_u1, 0.0, 0.999) * 5.0)) % 5];
+                auto               ls    = nano::lsearchk_t::all().get(id);
+                if (!ls)
+                {
+                    throw std::runtime_error(std::string("unknown line-search ") + id);
+                }
+                applied.description += cat("lsearchk=", id, " ");
+                if (pick >= 8)
+                {
+                    static const int limits[] = {1, 2, 4};
+                    const int        limit    = limits[static_cast<int>(std::floor(std::clamp(c.tol_u1, 0.0, 0.999) * 1000.0)) % 3];
+                    ls->parameter("lsearchk::max_iterations") = limit;
+                    applied.description += cat("lsearchk::max_iterations=", limit, " ");
+                }
+                solver->lsearchk(*ls);
+                applied.any_nondefault     = true;
+                applied.lsearch_nondefault = true;
+            }
+        }
     }
     catch (const std::exception& e)
     {
